@@ -42,10 +42,12 @@ const (
 	c20C  c20kind = 'C' // "use of closed file"
 	c20W  c20kind = 'W' // wrapped EAGAIN (os.SyscallError)
 	c20P  c20kind = 'P' // io.ErrClosedPipe
+	c20M  c20kind = 'M' // bare ETIMEDOUT (a syscall.Errno is a net.Error whose Timeout() is true): a timeout, transient
+	c20N  c20kind = 'N' // ETIMEDOUT wrapped in net.OpError{os.SyscallError}: a timeout, transient
 )
 
 var c20alphabet = []c20kind{c20F, c20E, c20A, c20T, c20R, c20O, c20U, c20X, c20B, c20C}
-var c20alphabetLong = []c20kind{c20F, c20F, c20F, c20E, c20A, c20T, c20R, c20O, c20U, c20W}
+var c20alphabetLong = []c20kind{c20F, c20F, c20F, c20E, c20A, c20T, c20R, c20O, c20U, c20W, c20M, c20N}
 
 func (k c20kind) terminal() bool { return k == c20X || k == c20B || k == c20C || k == c20P }
 func (k c20kind) frame() bool    { return k == c20F || k == c20E }
@@ -120,6 +122,10 @@ func (r *c20reader) ReadPacketData() ([]byte, *gopacket.CaptureInfo, error) {
 		return nil, nil, os.NewSyscallError("recvfrom", syscall.EAGAIN)
 	case c20T:
 		return nil, nil, c20timeoutErr{}
+	case c20M:
+		return nil, nil, syscall.ETIMEDOUT
+	case c20N:
+		return nil, nil, &net.OpError{Op: "read", Net: "packet", Err: os.NewSyscallError("recvfrom", syscall.ETIMEDOUT)}
 	case c20R:
 		return nil, nil, syscall.ECONNRESET
 	case c20O:
@@ -252,7 +258,7 @@ func c20run(run *vlab.Run, sc c20script) {
 				why = "an unknown read error stopped the receiver"
 			case k == c20E:
 				why = "a processing error stopped the receiver"
-			case k == c20A || k == c20T || k == c20R || k == c20O || k == c20W:
+			case k == c20A || k == c20T || k == c20R || k == c20O || k == c20W || k == c20M || k == c20N:
 				why = "a transient read error stopped the receiver"
 			}
 			run.Violation("stopped-early:"+string(k), fmt.Sprintf("%s after read #%d (%c); %d reads expected: %s", why, calls-1, k, minCalls, desc()), w)
@@ -381,7 +387,7 @@ func TestVerifC20(t *testing.T) {
 	}
 	nCancel := len(scripts) - nExh
 	// ---- extra terminal kinds and wrapped transient
-	for _, s := range []string{"P", "FP", "WF", "WWEUFX", "FWB", "UUP"} {
+	for _, s := range []string{"P", "FP", "WF", "WWEUFX", "FWB", "UUP", "MF", "NF", "FMNEUFX", "MMMNNNF", "MNUF", "EMF"} {
 		scripts = append(scripts, c20script{syms: s, cancelAt: -1})
 	}
 	// ---- long random sequences with bursts of unknown/processing errors > 100 (the error channel's buffer)
